@@ -26,7 +26,9 @@ AES_KEY = bytes(range(32))
 
 # key names are names: a dot in the name is part of the name ("fw_enc.v2" is the file fw_enc.v2.bin, not fw_enc.bin, which also exists)
 AES_KEYS = {"aes_key": AES_KEY, "fw_enc.v2": bytes(range(1, 33)), "fw_enc": bytes(range(2, 34)), "app.prod": bytes(range(3, 35)),
-            "key.bin": bytes(range(4, 36)), "with space": bytes(range(5, 37))}
+            "key.bin": bytes(range(4, 36)), "with space": bytes(range(5, 37)),
+            # key material is 32 bytes, whatever they look like: all printable hex digits, all white space and digits
+            "printable": b"0123456789abcdef0123456789abcdef", "digits": b"12345678901234567890123456789012"}
 
 
 def aes_keys_dir():
@@ -56,6 +58,13 @@ def run_encrypt(firmware: bytes, key_id: int, hash_alg: str, d: str, key_name: s
     os.environ["VERIF_KMS_RECORD"] = rec
     os.environ["REPO"] = str(common.REPO)
     try:
+        if (len(firmware) + key_id) % 4 == 1:
+            # an incremental rebuild: the output directory holds the artifacts of an earlier run for this very firmware
+            for f in os.listdir(outd):
+                os.unlink(os.path.join(outd, f))
+            cmd_encrypt.main(encrypt_subcommand="encrypt-and-generate", firmware=fw, key_name=key_name, key_id=key_id, context=aes_keys_dir(),
+                             hash_alg=hash_alg, kw_alg="direct", kms_script=str(common.REPO / "ncs" / "basic_kms.py"),
+                             encrypt_script=str(common.REPO / "ncs" / "encrypt_script.py"), output_dir=outd)
         cmd_encrypt.main(encrypt_subcommand="encrypt-and-generate", firmware=fw, key_name=key_name, key_id=key_id, context=aes_keys_dir(),
                          hash_alg=hash_alg, kw_alg="direct", kms_script=str(common.VERIF / "harness" / "kms_recording.py"),
                          encrypt_script=str(common.REPO / "ncs" / "encrypt_script.py"), output_dir=outd)
@@ -214,6 +223,8 @@ def run(tier: str, seed: int, prop=PROP) -> int:
             res.sample({"job": list(job), "published_iv": o["iv"]})
     drv = Driver()
     generate_info_cases(drv, res, rng, tier)
+    from .. import reuse
+    reuse.encryptor_reuse(res, PROP)
     drv.close()
     return finish(res, st, RULE, NOTE)
 
